@@ -177,7 +177,7 @@ func (h volumesResourceHandler) ResolveFilter(
 			}}, nil
 		}
 	default:
-		return "", nil, fmt.Errorf("unsupported filter %s", property)
+		return "", nil, common.NewErrInvalidQuery("unsupported filter %s", property)
 	}
 }
 
